@@ -21,9 +21,12 @@ _NAMES = ["accept-line", "forward-char", "backward-char", "forward-word", "backw
           "yank-pop", "transpose-chars", "copy-forward-word", "copy-backward-word", "vi-put-after", "vi-kill-eol",
           "vi-change-case", "unix-word-rubout", "vi-yank-whole-line", "revert-line", "vi-backward-end-word", "vi-match",
           "up-line-or-history", "down-line-or-history", "beginning-of-history", "end-of-history",
-          "history-search-backward", "history-search-forward", "vi-visual-line-mode"]
+          "history-search-backward", "history-search-forward", "vi-visual-line-mode",
+          "accept-and-hold", "operate-and-get-next", "accept-and-infer-next-history", "history-substring-search-backward",
+          "history-substring-search-forward", "infer-next-history", "fetch-history", "vi-search", "reverse-search-history",
+          "forward-search-history", "end-of-file", "abort"]
 for i, n in enumerate(_NAMES):
-    CUSTOM[n] = _letters[i]
+    CUSTOM[n] = _letters[i // 62] + _letters[i % 62]
 
 
 def inputrc(vi, extra=""):
@@ -55,7 +58,7 @@ def typed(cmd):
     if name == "vi-yank-to":
         return b"y", [121]
     l = CUSTOM[name]
-    return bytes([PFX]) + l.encode(), [PFX, ord(l)]
+    return bytes([PFX]) + l.encode(), [PFX] + [ord(c) for c in l]
 
 
 MAIN = {"emacs": 0, "vi-insert": 1, "vi-command": 2, "vi": 2, "vi-move": 2}
@@ -191,3 +194,15 @@ def moves(rnd, vi, n):
             out.append(("vi-arg-digit", rnd.choice("23")) if vi else ("digit-argument", rnd.choice("234")))
         out.append((m,))
     return out
+
+
+_MODELLED = None
+
+
+def modelled_names():
+    """command names Editor.v implements (asked from the extracted model)"""
+    global _MODELLED
+    if _MODELLED is None:
+        d = Dec(vlib.model(["edcmds"])[0])
+        _MODELLED = {d.str() for _ in range(d.int())}
+    return _MODELLED
